@@ -67,7 +67,7 @@ func checkMonotoneKnob(c *Ctx, rule string) {
 						return false
 					}
 					root, _ := x.FieldPath()
-					return root.Op == "param" && root.Name == "ctx"
+					return root.Op == "param" && root.V != nil && strings.HasSuffix(root.V.Type().String(), "context.BatchContext")
 				}) {
 					return true
 				}
@@ -136,7 +136,7 @@ func checkCurrentBatchWriters(c *Ctx, rule string) {
 				continue
 			case vt.Op == "binop" && vt.Name == "+" && vt.Args[1].Op == "const" && vt.Args[1].Name == "1" && vt.Args[0].Op == "field" && vt.Args[0].Fld == batchFld:
 				reach, _ := CanReach(Entry(fn), func(in ssa.Instruction) bool { return in == ssa.Instruction(st) }, ReachOpts{CutEdge: func(b *ssa.BasicBlock, k int) bool {
-					return EdgeFactMatches(b, k, FNil(MField("BatchPartition"))) || EdgeFactMatches(b, k, FCmp(">", MField("BatchPartition"), MField("CurrentBatch")))
+					return EdgeFactMatches(b, k, FOr(FNil(MField("BatchPartition")), FCmp(">", MHas(MField("BatchPartition")), MField("CurrentBatch"))))
 				}})
 				c.Ob(rule, construct+"+1)", st.Pos(), !reach, "currentBatch++ only below batchPartition", ifs(reach, "increment reachable without (BatchPartition == nil) or (*BatchPartition > CurrentBatch)"))
 			case vt.Op == "const" && vt.Name == "0":
@@ -268,7 +268,7 @@ func checkClamp(c *Ctx, rule string) {
 				c.Ob(rule, name+"#"+f, fn.Pos(), false, "context field "+f, "anchor not found: field is not set")
 			}
 			for _, st := range sts {
-				ok := SliceHas(st.Val, source)
+				ok := SliceHasDeep(st.Val, source)
 				c.Ob(rule, name+"#"+f, st.Pos(), ok, f+" derives from "+srcDesc, ifs(!ok, "the value stored does not depend on "+srcDesc+": it bypasses the clamp"))
 			}
 		}
